@@ -65,6 +65,24 @@ Definition u_roundtrip (a : val) : val :=
   | _ => bad
   end.
 
+(* consecutive protect calls sharing ONE cache: [roots; [[draws; data; sid; rkid|None; time_ns] ...]] -> [blob | error ...] *)
+Fixpoint protect_seq (cache : ccache) (l : list val) : list val :=
+  match l with
+  | [] => []
+  | VL [VL [VB r1; VB r2; VB r3]; VB data; VS sid; rkid; VI ns] :: rest =>
+    match opt_bytes_of_val rkid with
+    | Some rk => let '(r, cache1) := protect_offline sym cache r1 r2 r3 data sid rk ns in vres VB r :: protect_seq cache1 rest
+    | None => [bad]
+    end
+  | _ => [bad]
+  end.
+Definition u_protect_seq (a : val) : val :=
+  match a with
+  | VL [VL roots; VL calls] =>
+    match cache_of_vals roots cc_empty with Some cache => VL (protect_seq cache calls) | None => bad end
+  | _ => bad
+  end.
+
 (* a GroupKeyEnvelope: [version; flags; l0; l1; l2; rkid; kdf_alg; kdf_params; secret_alg; secret_params; priv; pub; domain; forest; l1_key; l2_key] *)
 Definition env_of_val (v : val) : option envelope :=
   match v with
@@ -98,7 +116,7 @@ Definition u_roundtrip_env (a : val) : val :=
 Open Scope string_scope.
 Definition units : list (string * (val -> val)) :=
   [ ("e2e.unprotect", u_unprotect); ("e2e.protect", u_protect); ("e2e.roundtrip", u_roundtrip);
-    ("e2e.roundtrip_env", u_roundtrip_env) ].
+    ("e2e.roundtrip_env", u_roundtrip_env); ("e2e.protect_seq", u_protect_seq) ].
 
 Fixpoint lookup (n : string) (l : list (string * (val -> val))) : option (val -> val) :=
   match l with
